@@ -47,6 +47,7 @@ def main(tier, seed):
         "C16", tier, seed, run=run, machine="SelList", mc_cfg="SelList_%s.cfg" % tier, gen_cfg="SelList_gen_%s.cfg" % tier,
         trace_module="SelListTrace", adapter="adapters.selector_", adapter_fn="run_list_trace", sig=sig_list, corrupt=corrupt_list,
         tour_cap=8000 if q else 60000, n_walks=100 if q else 1000, walk_len=12 if q else 25,
+        variants=[{}, {}, {"foreign": True}],
         rule="(1) all selectors of the generator machine x 5 spellings, expected specificity and part sequence by construction; "
              "(2) transition tour + walks over append / selectorText histories of a SelectorList in raise and log mode",
         assumptions=["names come from a fixed vocabulary; pseudo-elements inside :not() are not generated (CSS3 forbids them)"])
